@@ -584,7 +584,7 @@ def render_macro(c, tight, defsplice=False):
         if d["k"] == "undef":
             lines.append("#undef " + d["name"])
             continue
-        body = join_tokens(d["body"], False)
+        body = join_tokens(d["body"], tight is True)      # the body follows the rendering of the use: `#define V (vq)` / `#define V ( vq )`
         if first and c["origin"] == "cmdline" and not d["fn"]:
             defines.append("%s=%s" % (d["name"], body))
         elif d["fn"] and defsplice:
